@@ -1001,7 +1001,13 @@ def _check(run, replay):
     else:
         cases = []
         for c in load_corpus("C05"):
-            if "heuristic" in c:
+            if c.get("standalone"):
+                # a fixed case that is reported as its OWN violation with exactly the corpus JSON as `case` (never shrunk,
+                # never merged with other disagreements): this is what a `finding:` line of KNOWN_FINDINGS.txt names
+                run_case = {k: c[k] for k in c}
+                run_case["_orig"] = json.loads(json.dumps(c))
+                cases.append(run_case)
+            elif "heuristic" in c:
                 cases.append(c)
             else:   # a bare frame: all heuristics, both modes
                 for h in heur:
@@ -1024,7 +1030,7 @@ def _check(run, replay):
         for c in cases:
             k = id(c["cols"])
             if k not in seen_frames and len(c["cols"][0]) <= 2000 and (c.get("pool") or {}).get("kind", "fake") != "real" \
-                    and name_sem(c["heuristic"]) not in ("const",):
+                    and name_sem(c["heuristic"]) not in ("const",) and "_orig" not in c:
                 seen_frames.add(k)
                 c["record_codes"] = True
     stats = {}
@@ -1067,6 +1073,15 @@ def _check(run, replay):
                  c.get("interaction_order", 1), c.get("pool"), c.get("numeric"), c.get("reference_features")]
         run.count_case(canon, v["nontrivial"])
         if c.get("history_only"):
+            continue
+        if "_orig" in c:
+            run.oblige("corpus standalone case agrees with the model: %s" % (c.get("comment", "")[:120]), not v["bad"],
+                       json.dumps(v["bad"][:2], default=str)[:380] if v["bad"] else "")
+            if v["bad"]:
+                b0 = v["bad"][0]
+                run.violation("counterexample", "correspondence (standalone corpus case): mixed_rank_graph triplet vs prescribed heuristic value",
+                              case=c["_orig"], impl=(b0.get("row") or b0.get("impl")), model=b0.get("expected"), clause=b0["clause"],
+                              extra={"all_bad_rows_of_this_case": v["bad"][:10]})
             continue
         if v["bad"]:
             nviol += 1
